@@ -20,8 +20,13 @@ package hashgraph
 //@ ghost func ItxSigOK(t InternalTransaction) bool { return keys.SigValid(common.KeyBytesOf(t.Body.Peer.PubKeyHex), HItx(t.Body), t.Signature) }
 //@ ghost func EventSigOK(e *Event) bool { return keys.SigValid(e.Body.Creator, BodyHash(e.Body), e.Signature) && (forall k int :: 0 <= k && k < len(e.Body.InternalTransactions) ==> ItxSigOK(e.Body.InternalTransactions[k])) }
 
-// memo fields of an event hold what they cache
-//@ ghost func (e *Event) memoOK() bool { return (e.creator == "" || e.creator == CreatorOf(e)) && (e.hex == "" || e.hex == HexOf(e)) && (len(e.hash) == 0 || __seqeq(e.hash, BodyHash(e.Body))) }
+// memo cells of an event hold what they cache (the exported body fields are never modified after creation)
+//@ ghost func (e *Event) creatorMemo() bool { return e.creator == "" || e.creator == CreatorOf(e) }
+//@ ghost func (e *Event) hexMemo() bool { return e.hex == "" || e.hex == HexOf(e) }
+//@ ghost func (e *Event) hashMemo() bool { return len(e.hash) == 0 || __seqeq(e.hash, BodyHash(e.Body)) }
+//@ memo Event.creator creatorMemo
+//@ memo Event.hex hexMemo
+//@ memo Event.hash hashMemo
 
 //@ func (e *EventBody) Hash() ([]byte, error)
 //@   trusted definition of H7 (encoding/json of the exported fields, then SHA256); json.Marshal of these field types cannot fail
@@ -39,19 +44,19 @@ package hashgraph
 //@   ensures[def] ret1 == nil && __seqeq(ret0, HBlock(*bb)) && len(ret0) == 32
 
 //@ func (e *Event) Creator() string
-//@   requires e != nil && e.memoOK()
-//@   modifies e.creator
-//@   ensures[def] ret0 == CreatorOf(e) && e.memoOK()
+//@   requires e != nil
+//@   modifies nothing
+//@   ensures[def] ret0 == CreatorOf(e)
 
 //@ func (e *Event) Hash() ([]byte, error)
-//@   requires e != nil && e.memoOK()
-//@   modifies e.hash
-//@   ensures[def] ret1 == nil && __seqeq(ret0, BodyHash(e.Body)) && e.memoOK()
+//@   requires e != nil
+//@   modifies nothing
+//@   ensures[def] ret1 == nil && __seqeq(ret0, BodyHash(e.Body))
 
 //@ func (e *Event) Hex() string
-//@   requires e != nil && e.memoOK()
-//@   modifies e.hash, e.hex
-//@   ensures[def] ret0 == HexOf(e) && e.memoOK()
+//@   requires e != nil
+//@   modifies nothing
+//@   ensures[def] ret0 == HexOf(e)
 
 //@ func (t *InternalTransaction) Verify() (bool, error)
 //@   safety on
@@ -79,53 +84,55 @@ package hashgraph
 //@ ghost field Store miss bool
 
 //@ iface func (s Store) GetEvent(hash string) (*Event, error)
-//@   modifies g_miss(s)
-//@   ensures[hit]  ret1 == nil ==> ret0 != nil && __in(hash, g_events(s)) && ret0 == g_events(s)[hash] && HexOf(ret0) == hash && ret0.memoOK() && __in(CreatorOf(ret0), g_rep(s)) && len(ret0.Body.Parents) == 2
-//@   ensures[missflag] (ret1 != nil && __in(hash, g_events(s)) ==> g_miss(s)) && (old(g_miss(s)) ==> g_miss(s))
-//@   ensures[miss] !__in(hash, g_events(s)) ==> ret1 != nil
+//@   modifies G_miss(s)
+//@   ensures[hit]  ret1 == nil ==> ret0 != nil && __in(hash, G_events(s)) && ret0 == G_events(s)[hash] && HexOf(ret0) == hash && __in(CreatorOf(ret0), G_rep(s)) && len(ret0.Body.Parents) == 2
+//@   ensures[missflag] (ret1 != nil && __in(hash, G_events(s)) ==> G_miss(s)) && (old(G_miss(s)) ==> G_miss(s))
+//@   ensures[miss] !__in(hash, G_events(s)) ==> ret1 != nil
 //@   ensures[err]  ret1 != nil ==> ret0 == nil
 
 //@ iface func (s Store) LastEventFrom(participant string) (string, error)
 //@   modifies nothing
-//@   ensures[ok]      ret1 == nil ==> __in(participant, g_rep(s)) && ret0 == g_last(s)[participant] && ret0 != "" && g_lastIdx(s)[participant] >= 0 && __in(ret0, g_events(s)) && g_events(s)[ret0] != nil && g_events(s)[ret0].Body.Index == g_lastIdx(s)[participant]
-//@   ensures[empty]   common.IsStore(ret1, common.Empty) ==> __in(participant, g_rep(s)) && g_lastIdx(s)[participant] == -1 && g_last(s)[participant] == ""
-//@   ensures[unknown] !__in(participant, g_rep(s)) ==> ret1 != nil && !common.IsStore(ret1, common.Empty)
-//@   ensures[none]    __in(participant, g_rep(s)) && g_lastIdx(s)[participant] < 0 ==> ret1 != nil
+//@   ensures[ok]      ret1 == nil ==> __in(participant, G_rep(s)) && ret0 == G_last(s)[participant] && ret0 != "" && G_lastIdx(s)[participant] >= 0 && __in(ret0, G_events(s)) && G_events(s)[ret0] != nil && G_events(s)[ret0].Body.Index == G_lastIdx(s)[participant]
+//@   ensures[empty]   common.IsStore(ret1, common.Empty) ==> __in(participant, G_rep(s)) && G_lastIdx(s)[participant] == -1 && G_last(s)[participant] == ""
+//@   ensures[unknown] !__in(participant, G_rep(s)) ==> ret1 != nil && !common.IsStore(ret1, common.Empty)
+//@   ensures[none]    __in(participant, G_rep(s)) && G_lastIdx(s)[participant] < 0 ==> ret1 != nil
 
 //@ iface func (s Store) SetEvent(event *Event) error
-//@   requires event != nil && event.memoOK()
-//@   modifies g_events(s), g_last(s), g_lastIdx(s), g_fault(s), event.hex, event.hash, event.creator
-//@   ensures[memo]   event.memoOK()
-//@   ensures[known]  ret0 == nil && __in(HexOf(event), old(g_events(s))) ==> __eq(g_events(s), __upd(old(g_events(s)), HexOf(event), event)) && __eq(g_last(s), old(g_last(s))) && __eq(g_lastIdx(s), old(g_lastIdx(s)))
-//@   ensures[new]    ret0 == nil && !__in(HexOf(event), old(g_events(s))) ==> __eq(g_events(s), __upd(old(g_events(s)), HexOf(event), event)) && __in(CreatorOf(event), g_rep(s))
-//@   ensures[head]   ret0 == nil && !__in(HexOf(event), old(g_events(s))) && (old(g_lastIdx(s))[CreatorOf(event)] < 0 || event.Body.Index == old(g_lastIdx(s))[CreatorOf(event)]+1) ==> __eq(g_last(s), __upd(old(g_last(s)), CreatorOf(event), HexOf(event))) && __eq(g_lastIdx(s), __upd(old(g_lastIdx(s)), CreatorOf(event), event.Body.Index))
-//@   ensures[refuse] ret0 != nil ==> __eq(g_events(s), old(g_events(s))) && __eq(g_last(s), old(g_last(s))) && __eq(g_lastIdx(s), old(g_lastIdx(s)))
-//@   ensures[fault]  ret0 != nil && __in(HexOf(event), old(g_events(s))) ==> g_fault(s)
-//@   ensures[nofix]  old(g_fault(s)) ==> g_fault(s)
-//@   ensures[accept] ret0 != nil && !__in(HexOf(event), old(g_events(s))) && __in(CreatorOf(event), g_rep(s)) && event.Body.Index >= 0 && (old(g_lastIdx(s))[CreatorOf(event)] < 0 || event.Body.Index == old(g_lastIdx(s))[CreatorOf(event)]+1) ==> g_fault(s)
+//@   requires event != nil
+//@   modifies G_events(s), G_last(s), G_lastIdx(s), G_fault(s)
+//@   ensures[known]  ret0 == nil && __in(HexOf(event), old(G_events(s))) ==> __eq(G_events(s), __upd(old(G_events(s)), HexOf(event), event)) && __eq(G_last(s), old(G_last(s))) && __eq(G_lastIdx(s), old(G_lastIdx(s)))
+//@   ensures[new]    ret0 == nil && !__in(HexOf(event), old(G_events(s))) ==> __eq(G_events(s), __upd(old(G_events(s)), HexOf(event), event)) && __in(CreatorOf(event), G_rep(s))
+//@   ensures[head]   ret0 == nil && !__in(HexOf(event), old(G_events(s))) && (old(G_lastIdx(s))[CreatorOf(event)] < 0 || event.Body.Index == old(G_lastIdx(s))[CreatorOf(event)]+1) ==> __eq(G_last(s), __upd(old(G_last(s)), CreatorOf(event), HexOf(event))) && __eq(G_lastIdx(s), __upd(old(G_lastIdx(s)), CreatorOf(event), event.Body.Index))
+//@   ensures[refuse] ret0 != nil ==> __eq(G_events(s), old(G_events(s))) && __eq(G_last(s), old(G_last(s))) && __eq(G_lastIdx(s), old(G_lastIdx(s)))
+//@   ensures[fault]  ret0 != nil && __in(HexOf(event), old(G_events(s))) ==> G_fault(s)
+//@   ensures[nofix]  old(G_fault(s)) ==> G_fault(s)
+//@   ensures[accept] ret0 != nil && !__in(HexOf(event), old(G_events(s))) && __in(CreatorOf(event), G_rep(s)) && event.Body.Index >= 0 && (old(G_lastIdx(s))[CreatorOf(event)] < 0 || event.Body.Index == old(G_lastIdx(s))[CreatorOf(event)]+1) ==> G_fault(s)
+
+//@ iface func (s Store) RepertoireByID() map[uint32]*peers.Peer
+//@   modifies nothing
+//@   ensures[nonnil] ret0 != nil
 
 //@ iface func (s Store) RepertoireByPubKey() map[string]*peers.Peer
 //@   modifies nothing
-//@   ensures[view] ret0 != nil && (forall k string :: __in(k, ret0) == __in(k, g_rep(s))) && (forall k string :: __in(k, ret0) ==> ret0[k] == g_rep(s)[k] && ret0[k] != nil)
+//@   ensures[view] ret0 != nil && (forall k string :: __in(k, ret0) == __in(k, G_rep(s))) && (forall k string :: __in(k, ret0) ==> ret0[k] == G_rep(s)[k] && ret0[k] != nil)
 
 // ------------------------------------------------------------------------------------------------
 // Event admission (C07)
 
 //@ func (h *Hashgraph) checkSelfParent(event *Event) error
-//@   requires h != nil && event != nil && event.memoOK() && len(event.Body.Parents) == 2
-//@   modifies event.creator, g_miss(h.Store)
-//@   ensures[creator] ret0 == nil ==> __in(CreatorOf(event), g_rep(h.Store))
-//@   ensures[known]   ret0 == nil && event.Body.Parents[0] != "" ==> __in(event.Body.Parents[0], g_events(h.Store))
-//@   ensures[miss]    old(g_miss(h.Store)) ==> g_miss(h.Store)
-//@   ensures[head]    ret0 == nil ==> (g_lastIdx(h.Store)[CreatorOf(event)] == -1 && event.Body.Parents[0] == "") || (g_lastIdx(h.Store)[CreatorOf(event)] >= 0 && event.Body.Parents[0] == g_last(h.Store)[CreatorOf(event)] && event.Body.Parents[0] != "")
-//@   ensures[index]   ret0 == nil ==> event.Body.Index == g_lastIdx(h.Store)[CreatorOf(event)] + 1
-//@   ensures[memo]    event.memoOK()
+//@   requires h != nil && event != nil && len(event.Body.Parents) == 2
+//@   modifies G_miss(h.Store)
+//@   ensures[creator] ret0 == nil ==> __in(CreatorOf(event), G_rep(h.Store))
+//@   ensures[known]   ret0 == nil && event.Body.Parents[0] != "" ==> __in(event.Body.Parents[0], G_events(h.Store))
+//@   ensures[miss]    old(G_miss(h.Store)) ==> G_miss(h.Store)
+//@   ensures[head]    ret0 == nil ==> (G_lastIdx(h.Store)[CreatorOf(event)] == -1 && event.Body.Parents[0] == "") || (G_lastIdx(h.Store)[CreatorOf(event)] >= 0 && event.Body.Parents[0] == G_last(h.Store)[CreatorOf(event)] && event.Body.Parents[0] != "")
+//@   ensures[index]   ret0 == nil ==> event.Body.Index == G_lastIdx(h.Store)[CreatorOf(event)] + 1
 
 //@ func (h *Hashgraph) checkOtherParent(event *Event) error
 //@   requires h != nil && event != nil && len(event.Body.Parents) == 2
-//@   modifies g_miss(h.Store)
-//@   ensures[present] ret0 == nil && event.Body.Parents[1] != "" ==> __in(event.Body.Parents[1], g_events(h.Store))
-//@   ensures[miss]    old(g_miss(h.Store)) ==> g_miss(h.Store)
+//@   modifies G_miss(h.Store)
+//@   ensures[present] ret0 == nil && event.Body.Parents[1] != "" ==> __in(event.Body.Parents[1], G_events(h.Store))
+//@   ensures[miss]    old(G_miss(h.Store)) ==> G_miss(h.Store)
 
 //@ func (c CoordinatesMap) Copy() CoordinatesMap
 //@   modifies nothing
@@ -138,9 +145,9 @@ package hashgraph
 //@ ghost func (h *Hashgraph) viewOf() Store { return h.Store }
 
 //@ func (h *Hashgraph) initEventCoordinates(event *Event) error
-//@   requires h != nil && event != nil && event.memoOK() && len(event.Body.Parents) == 2
-//@   modifies event.lastAncestors, event.firstDescendants, event.creator, event.hex, event.hash, g_miss(h.Store)
-//@   ensures[ok]   ret0 == nil && event.memoOK() && (old(g_miss(h.Store)) ==> g_miss(h.Store))
+//@   requires h != nil && event != nil && len(event.Body.Parents) == 2
+//@   modifies event.lastAncestors, event.firstDescendants, G_miss(h.Store)
+//@   ensures[ok]   ret0 == nil && (old(G_miss(h.Store)) ==> G_miss(h.Store))
 //@   ensures[maps] event.lastAncestors != nil && event.firstDescendants != nil && __fresh(event.lastAncestors) && __fresh(event.firstDescendants)
 
 //@ func (h *Hashgraph) witness(x string) (bool, error)
@@ -148,28 +155,83 @@ package hashgraph
 //@   modifies nothing
 
 //@ func (h *Hashgraph) updateAncestorFirstDescendant(event *Event) error
-//@   requires h != nil && event != nil && event.memoOK() && event.lastAncestors != nil
-//@   modifies g_events(h.Store), g_fault(h.Store), g_miss(h.Store), any Event.creator, any Event.hex, any Event.hash, anymap CoordinatesMap
-//@   ensures[view]  __eq(g_events(h.Store), old(g_events(h.Store))) && __eq(g_last(h.Store), old(g_last(h.Store))) && __eq(g_lastIdx(h.Store), old(g_lastIdx(h.Store)))
-//@   ensures[fault] ret0 != nil ==> g_fault(h.Store)
-//@   ensures[memo]  event.memoOK()
-//@   loop 1 modifies g_events(h.Store), g_fault(h.Store), g_miss(h.Store), any Event.creator, any Event.hex, any Event.hash, anymap CoordinatesMap
-//@   loop 2 modifies g_events(h.Store), g_fault(h.Store), g_miss(h.Store), any Event.creator, any Event.hex, any Event.hash, anymap CoordinatesMap
-//@   loop 1 invariant[view] __eq(g_events(h.Store), old(g_events(h.Store))) && __eq(g_last(h.Store), old(g_last(h.Store))) && __eq(g_lastIdx(h.Store), old(g_lastIdx(h.Store))) && event.memoOK() && (old(g_fault(h.Store)) ==> g_fault(h.Store))
-//@   loop 2 invariant[view] __eq(g_events(h.Store), old(g_events(h.Store))) && __eq(g_last(h.Store), old(g_last(h.Store))) && __eq(g_lastIdx(h.Store), old(g_lastIdx(h.Store))) && event.memoOK() && (old(g_fault(h.Store)) ==> g_fault(h.Store))
+//@   requires h != nil && event != nil && event.lastAncestors != nil
+//@   modifies G_events(h.Store), G_fault(h.Store), G_miss(h.Store), anymap CoordinatesMap
+//@   ensures[view]  __eq(G_events(h.Store), old(G_events(h.Store))) && __eq(G_last(h.Store), old(G_last(h.Store))) && __eq(G_lastIdx(h.Store), old(G_lastIdx(h.Store)))
+//@   ensures[fault] ret0 != nil ==> G_fault(h.Store)
+//@   loop 1 modifies G_events(h.Store), G_fault(h.Store), G_miss(h.Store), anymap CoordinatesMap
+//@   loop 2 modifies G_events(h.Store), G_fault(h.Store), G_miss(h.Store), anymap CoordinatesMap
+//@   loop 1 invariant[view] __eq(G_events(h.Store), old(G_events(h.Store))) && __eq(G_last(h.Store), old(G_last(h.Store))) && __eq(G_lastIdx(h.Store), old(G_lastIdx(h.Store))) && (old(G_fault(h.Store)) ==> G_fault(h.Store))
+//@   loop 2 invariant[view] __eq(G_events(h.Store), old(G_events(h.Store))) && __eq(G_last(h.Store), old(G_last(h.Store))) && __eq(G_lastIdx(h.Store), old(G_lastIdx(h.Store))) && (old(G_fault(h.Store)) ==> G_fault(h.Store))
 
 //@ func (h *Hashgraph) InsertEvent(event *Event, setWireInfo bool) error
-//@   requires h != nil && event != nil && event.memoOK() && len(event.Body.Parents) == 2 && h.PendingSignatures != nil && h.PendingSignatures.items != nil
+//@   requires h != nil && event != nil && len(event.Body.Parents) == 2 && h.PendingSignatures != nil && h.PendingSignatures.items != nil
 //@   ensures[signed]               ret0 == nil ==> EventSigOK(event)
-//@   ensures[known-creator]        ret0 == nil ==> __in(CreatorOf(event), g_rep(h.Store))
-//@   ensures[self-parent-is-head]  ret0 == nil ==> (old(g_lastIdx(h.Store))[CreatorOf(event)] == -1 && event.Body.Parents[0] == "") || (old(g_lastIdx(h.Store))[CreatorOf(event)] >= 0 && event.Body.Parents[0] != "" && event.Body.Parents[0] == old(g_last(h.Store))[CreatorOf(event)])
-//@   ensures[other-parent-present] ret0 == nil && event.Body.Parents[1] != "" ==> __in(event.Body.Parents[1], old(g_events(h.Store)))
-//@   ensures[index-extends-chain]  ret0 == nil ==> event.Body.Index == old(g_lastIdx(h.Store))[CreatorOf(event)] + 1
-//@   ensures[stored]               ret0 == nil ==> __eq(g_events(h.Store), __upd(old(g_events(h.Store)), HexOf(event), event))
-//@   ensures[known-grows-by-one]   ret0 == nil && !__in(HexOf(event), old(g_events(h.Store))) ==> __eq(g_lastIdx(h.Store), __upd(old(g_lastIdx(h.Store)), CreatorOf(event), event.Body.Index)) && __eq(g_last(h.Store), __upd(old(g_last(h.Store)), CreatorOf(event), HexOf(event)))
-//@   ensures[rejected-unchanged]   ret0 != nil && !g_fault(h.Store) ==> __eq(g_events(h.Store), old(g_events(h.Store))) && __eq(g_last(h.Store), old(g_last(h.Store))) && __eq(g_lastIdx(h.Store), old(g_lastIdx(h.Store))) && __seqeq(h.UndeterminedEvents, old(h.UndeterminedEvents))
+//@   ensures[known-creator]        ret0 == nil ==> __in(CreatorOf(event), G_rep(h.Store))
+//@   ensures[self-parent-is-head]  ret0 == nil ==> (old(G_lastIdx(h.Store))[CreatorOf(event)] == -1 && event.Body.Parents[0] == "") || (old(G_lastIdx(h.Store))[CreatorOf(event)] >= 0 && event.Body.Parents[0] != "" && event.Body.Parents[0] == old(G_last(h.Store))[CreatorOf(event)])
+//@   ensures[other-parent-present] ret0 == nil && event.Body.Parents[1] != "" ==> __in(event.Body.Parents[1], old(G_events(h.Store)))
+//@   ensures[index-extends-chain]  ret0 == nil ==> event.Body.Index == old(G_lastIdx(h.Store))[CreatorOf(event)] + 1
+//@   ensures[stored]               ret0 == nil ==> __eq(G_events(h.Store), __upd(old(G_events(h.Store)), HexOf(event), event))
+//@   ensures[known-grows-by-one]   ret0 == nil && !__in(HexOf(event), old(G_events(h.Store))) ==> __eq(G_lastIdx(h.Store), __upd(old(G_lastIdx(h.Store)), CreatorOf(event), event.Body.Index)) && __eq(G_last(h.Store), __upd(old(G_last(h.Store)), CreatorOf(event), HexOf(event)))
+//@   ensures[rejected-unchanged]   ret0 != nil && !G_fault(h.Store) ==> __eq(G_events(h.Store), old(G_events(h.Store))) && __eq(G_last(h.Store), old(G_last(h.Store))) && __eq(G_lastIdx(h.Store), old(G_lastIdx(h.Store))) && __seqeq(h.UndeterminedEvents, old(h.UndeterminedEvents))
 //@   ensures[body-kept]            __seqeq(BodyHash(event.Body), old(BodyHash(event.Body))) && event.Signature == old(event.Signature)
 //@   ensures[topo-success]         ret0 == nil ==> h.topologicalIndex == old(h.topologicalIndex) + 1 && event.topologicalIndex == old(h.topologicalIndex)
-//@   ensures[topo-rejected]        ret0 != nil && !g_fault(h.Store) && !g_miss(h.Store) && !old(g_miss(h.Store)) ==> h.topologicalIndex == old(h.topologicalIndex)
+//@   ensures[topo-rejected]        ret0 != nil && !G_fault(h.Store) && !G_miss(h.Store) && !old(G_miss(h.Store)) ==> h.topologicalIndex == old(h.topologicalIndex)
 //@   aux[queued]                   ret0 == nil ==> len(h.UndeterminedEvents) == len(old(h.UndeterminedEvents)) + 1 && h.UndeterminedEvents[len(h.UndeterminedEvents)-1] == HexOf(event)
 //@   loop 1 modifies h.PendingSignatures.items[*]
+
+// ------------------------------------------------------------------------------------------------
+// Blocks and their signatures (C09, C12)
+
+// BlockSigOK: the signature string verifies for the key bytes over this block's body.
+//@ ghost func BlockSigOK(b *Block, keyBytes []byte, sig string) bool { return keys.SigValid(keyBytes, HBlock(b.Body), sig) }
+
+//@ func (bs *BlockSignature) ValidatorHex() string
+//@   requires bs != nil
+//@   modifies nothing
+//@   ensures[def] ret0 == common.Enc(bs.Validator)
+
+//@ func (b *Block) Verify(sig BlockSignature) (bool, error)
+//@   safety on
+//@   requires b != nil
+//@   modifies nothing
+//@   ensures[valid] ret0 ==> BlockSigOK(b, sig.Validator, sig.Signature)
+
+//@ func (b *Block) GetSignatures() []BlockSignature
+//@   safety on
+//@   requires b != nil
+//@   modifies nothing
+//@   ensures[all] len(ret0) == len(b.Signatures) && (forall i int :: 0 <= i && i < len(ret0) ==> (exists k string :: __in(k, b.Signatures) && __seqeq(ret0[i].Validator, common.KeyBytesOf(k)) && ret0[i].Signature == b.Signatures[k] && ret0[i].Index == b.Body.Index))
+//@   loop 1 invariant[count] i == __iter() && len(res) == len(b.Signatures)
+//@   loop 1 invariant[part]  forall j int :: 0 <= j && j < i ==> (exists k string :: __in(k, b.Signatures) && __seqeq(res[j].Validator, common.KeyBytesOf(k)) && res[j].Signature == b.Signatures[k] && res[j].Index == b.Body.Index)
+
+//@ func (h *Hashgraph) CheckBlock(block *Block, peerSet *peers.PeerSet) error
+//@   requires h != nil && block != nil && peerSet != nil && peerSet.WF()
+//@   modifies nothing
+//@   ensures[peers-hash]       ret0 == nil ==> __seqeq(peers.PSHashOf(peerSet.Peers), block.Body.PeersHash)
+//@   ensures[distinct-signers] ret0 == nil ==> 3*len(counted) > len(peerSet.ByPubKey) && (forall v string :: __in(v, counted) ==> __in(v, peerSet.ByPubKey) && (exists k string :: __in(k, block.Signatures) && v == common.Enc(common.KeyBytesOf(k)) && BlockSigOK(block, common.KeyBytesOf(k), block.Signatures[k])))
+//@   ensures[wf]               peerSet.WF()
+//@   ensures[third]            ret0 == nil ==> SignedByMoreThanThird(block, peerSet)
+//@   loop 1 invariant[count]   counted != nil && __fresh(counted) && validSignatures == len(counted)
+//@   loop 1 invariant[valid]   forall v string :: __in(v, counted) ==> counted[v] && __in(v, peerSet.ByPubKey) && (exists k string :: __in(k, block.Signatures) && v == common.Enc(common.KeyBytesOf(k)) && BlockSigOK(block, common.KeyBytesOf(k), block.Signatures[k]))
+
+// FrameHashOf: by definition, SHA256 of the canonical (sorted-key) encoding of the frame.
+//@ ghost func FrameHashOf(f Frame) []byte
+
+//@ func (f *Frame) Hash() ([]byte, error)
+//@   trusted definition of FrameHashOf (codec canonical JSON, then SHA256)
+//@   requires f != nil
+//@   modifies nothing
+//@   ensures[def] ret1 == nil ==> __seqeq(ret0, FrameHashOf(*f))
+
+// SignedByMoreThanThird: more than one third of the distinct members of ps have a signature in the
+// block's map that verifies over the block's body.
+//@ ghost func SignedByMoreThanThird(b *Block, ps *peers.PeerSet) bool { return exists m map[string]bool :: m != nil && 3*len(m) > len(ps.ByPubKey) && (forall v string :: __in(v, m) ==> __in(v, ps.ByPubKey) && (exists k string :: __in(k, b.Signatures) && v == common.Enc(common.KeyBytesOf(k)) && BlockSigOK(b, common.KeyBytesOf(k), b.Signatures[k]))) }
+
+//@ func (h *Hashgraph) Reset(block *Block, frame *Frame) error
+//@   trusted not verified (fast-sync reset: rebuilds store, rounds and caches from the frame); its write-set is computed by the engine
+//@   requires h != nil && block != nil && frame != nil
+
+// Snapshot: the part of a hashgraph (and of its store's ghost view) that a refused fast-forward must leave alone.
+//@ ghost type HGSnapshot struct { Store Store; Undetermined []string; PendingRounds *PendingRoundsCache; PendingSignatures *SigPool; Anchor *int; LastConsensusRound *int; FirstConsensusRound *int; LowerBound *int; Topo int; Loaded int; Events gmap[string, *Event]; Last gmap[string, string]; LastIdx gmap[string, int] }
+//@ ghost func (h *Hashgraph) Snapshot() HGSnapshot { return HGSnapshot{h.Store, h.UndeterminedEvents, h.PendingRounds, h.PendingSignatures, h.AnchorBlock, h.LastConsensusRound, h.FirstConsensusRound, h.roundLowerBound, h.topologicalIndex, h.PendingLoadedEvents, G_events(h.Store), G_last(h.Store), G_lastIdx(h.Store)} }
